@@ -87,6 +87,19 @@ def s_replace_char(s, old, new):
     return SStr(s.length, lambda i: z3.If(s.ch(i) == ord(old), z3.IntVal(ord(new)), s.ch(i)))
 
 
+def s_eq_const(s, text):
+    return z3.And(s.length == len(text), *[s.ch(z3.IntVal(k)) == ord(c) for k, c in enumerate(text)])
+
+
+def s_endswith_const(s, text):
+    n = len(text)
+    return z3.And(s.length >= n, *[s.ch(s.length - n + k) == ord(c) for k, c in enumerate(text)])
+
+
+def s_startswith_const(s, text):
+    return z3.And(s.length >= len(text), *[s.ch(z3.IntVal(k)) == ord(c) for k, c in enumerate(text)])
+
+
 def s_concat(*parts):
     acc = parts[0]
     for b in parts[1:]:
@@ -170,6 +183,8 @@ class _Tr:
                     raise Unsupported('format spec / conversion in f-string')
             if not parts:
                 return s_const('')
+            if all(getattr(q, 'const', None) is not None for q in parts):
+                return s_const(''.join(q.const for q in parts))
             return parts[0] if len(parts) == 1 else s_concat(*parts)
         if isinstance(node, ast.Subscript):
             s = self.ex(node.value, env)
@@ -204,6 +219,11 @@ class _Tr:
             out = []
             for op, right in zip(node.ops, node.comparators):
                 r = self.ex(right, env)
+                if isinstance(op, (ast.In, ast.NotIn)) and _is_str(left) and isinstance(r, (tuple, list, frozenset, set)):
+                    t = z3.Or(*[s_eq_const(left, c) for c in sorted(r)]) if r else z3.BoolVal(False)
+                    out.append(t if isinstance(op, ast.In) else z3.Not(t))
+                    left = r
+                    continue
                 if _is_str(left) or _is_str(r):
                     raise Unsupported('comparison of strings')
                 if isinstance(op, ast.LtE):
@@ -224,6 +244,24 @@ class _Tr:
             return out[0] if len(out) == 1 else z3.And(*out)
         if isinstance(node, ast.IfExp):
             return _ite(self.truth(self.ex(node.test, env)), self.ex(node.body, env), self.ex(node.orelse, env))
+        if isinstance(node, ast.Call) and isinstance(node.func, ast.Attribute) and node.func.attr in ('endswith', 'startswith') \
+                and len(node.args) == 1 and not node.keywords:
+            target, arg = self.ex(node.func.value, env), self.ex(node.args[0], env)
+            if _is_str(target) and getattr(arg, 'const', None) is not None:
+                return (s_endswith_const if node.func.attr == 'endswith' else s_startswith_const)(target, arg.const)
+            raise Unsupported('endswith/startswith with a non-constant argument')
+        if isinstance(node, ast.Call) and isinstance(node.func, ast.Name) and node.func.id == 'any' and len(node.args) == 1 \
+                and isinstance(node.args[0], ast.GeneratorExp) and len(node.args[0].generators) == 1:
+            gen = node.args[0].generators[0]
+            coll = self.ex(gen.iter, env)
+            if gen.ifs or not isinstance(gen.target, ast.Name) or not isinstance(coll, (tuple, list, frozenset, set)):
+                raise Unsupported('any() over something else than a constant collection')
+            terms = []
+            for item in sorted(coll):
+                e2 = dict(env)
+                e2[gen.target.id] = _lift(item)
+                terms.append(self.truth(self.ex(node.args[0].elt, e2)))
+            return z3.Or(*terms) if terms else z3.BoolVal(False)
         if isinstance(node, ast.Dict):
             if not all(isinstance(k, ast.Constant) and isinstance(v, ast.Constant) for k, v in zip(node.keys, node.values)):
                 raise Unsupported('non-constant dict')
